@@ -1439,3 +1439,110 @@ func c18AcceptLoopLeaves(c *Ctx) {
 		c.Cond(bad == "", ob, key, c.Pos(accept), "every err == nil path hands the connection over or closes it", bad)
 	}
 }
+
+// ---------------------------------------------------------------- C16.O17
+
+// c16FlushMeetsTheDeadline: a write deadline is met when the bytes it was set
+// for have gone out.  Write and Writev cancel it when they leave nothing
+// queued (C16.O5); when the tail was queued it is flush that sends the last
+// byte, and flush must cancel it on the edge on which it has drained the
+// queue, or the stale timer closes a connection whose write completed in time.
+func c16FlushMeetsTheDeadline(c *Ctx) {
+	const ob = "C16.O17"
+	fl := c.Fn(ob, "(*nbio.Conn).flush")
+	if fl == nil {
+		return
+	}
+	fi := c.P.Info(fl)
+	L := c.Locks()
+	key := fnKey(c.P, fl, "the drained edge cancels the write deadline")
+	// the disarm behind the drain loop (its queue-empty fact comes from a loop test)
+	var drained []ssa.Instruction
+	for _, cs := range c.P.CallsNamed(fl, "(*nbio.Conn).resetRead") {
+		for _, ft := range fi.Facts(cs.In) {
+			if e, ok := c.queueTest(ft); ok && e && ft.If != nil && fi.InLoop(ft.If) {
+				drained = append(drained, cs.In)
+			}
+		}
+	}
+	if len(drained) == 0 {
+		c.Unres(ob, key, "the disarm behind flush's drain loop was not found")
+		return
+	}
+	bad := ""
+	for _, d := range drained {
+		ok := false
+		for _, st := range c.P.StoresTo(fl, fConnWTimer) {
+			if !ir.IsNilConst(st.Val) || !L.HeldClass(st, fConnMux) {
+				continue
+			}
+			if !fi.HasFact(st, func(ft ir.Fact) bool { e, isQ := c.queueTest(ft); return isQ && e }) {
+				continue
+			}
+			// on the way to the drained return: the store reaches the disarm, or the disarm reaches it, without leaving the region
+			if fi.CanReach(st, d) || fi.CanReach(d, st) {
+				ok = true
+			}
+		}
+		if !ok {
+			bad = "flush drains the write queue (" + c.Pos(d) + ") without cancelling the write deadline: when the tail of a Write was queued it is flush that sends its last byte, and the deadline set for that write stays armed — a connection whose backlog went out in time is closed with 'write timeout' when the old deadline passes (SetWriteDeadline(1s), 24 MiB written, drained after 27 ms: closed at 1.000 s)"
+		}
+	}
+	c.Cond(bad == "", ob, key, c.FnPos(fl), "wTimer stopped and cleared on the drained edge, under Conn.mux", bad)
+}
+
+// ---------------------------------------------------------------- C09.O16
+
+// c09DeclaredZero: "Content-Length: 0" set by the handler declares an empty
+// body.  Write's overrun test must cover it: a test that only applies for a
+// positive length lets body bytes follow a head that says there are none, and
+// the client reads them as the start of the next response.
+func c09DeclaredZero(c *Ctx) {
+	const ob = "C09.O16"
+	w := c.Fn(ob, "(*nbhttp.Response).Write")
+	if w == nil {
+		return
+	}
+	fi := c.P.Info(w)
+	key := fnKey(c.P, w, "a declared length of 0 is enforced")
+	var cl ssa.Value
+	for _, cs := range c.P.CallsNamed(w, "(*nbhttp.Response).contentLength") {
+		if refs := cs.Value().Referrers(); refs != nil {
+			for _, r := range *refs {
+				if e, ok := r.(*ssa.Extract); ok && e.Index == 0 {
+					cl = e
+				}
+			}
+		}
+	}
+	if cl == nil {
+		c.Unres(ob, key, "the declared length is not read in Write")
+		return
+	}
+	n, covered := 0, false
+	for _, r := range fi.Returns() {
+		rv := ir.RetVals(r)
+		if !strings.HasSuffix(c.P.Desc(rv[len(rv)-1]), "http.ErrContentLength") {
+			continue
+		}
+		n++
+		// on an edge on which the declared length is 0 and the field is present
+		zero := fi.HasFact(r, func(ft ir.Fact) bool {
+			cmp, ok := ir.DecodeIntCmp(ft.Cond)
+			return ok && ir.Resolve(cmp.Expr) == cl && cmp.Holds(0) == ft.Truth && cmp.Holds(1) != ft.Truth
+		})
+		present := fi.HasFact(r, func(ft ir.Fact) bool {
+			for _, cs := range c.P.Calls(w, func(name string, _ ir.CallSite) bool { return strings.HasSuffix(name, "Header).Get") }) {
+				if dep := c.dependsOn(w, cs.Value()); dep[ft.Cond] || dep[ir.Resolve(ft.Cond)] {
+					return true
+				}
+			}
+			return false
+		})
+		if zero && present {
+			covered = true
+		}
+	}
+	c.Cond(covered && n > 0, ob, key, c.FnPos(w), fmt.Sprintf("%d ErrContentLength return(s), one on the declared-zero edge", n),
+		"Write enforces a declared Content-Length only when it is positive: with 'Content-Length: 0' set by the handler a Write is accepted and its bytes follow a head that declares an empty body — the client reads them as the start of the next response (malformed HTTP version \"helloHTTP/1.1\"); net/http returns ErrContentLength")
+}
